@@ -53,7 +53,7 @@ CLAIMED.update({
          "Trusted: shuttle (treats all atomic orderings as SeqCst: weak-memory effects are not explored), the shadow manifests build the same sources as /repo.",
          "DESIGN.md section 3, C16"),
  "C06": ("deterministic simulation: a connected real Connection receives from a conforming sender model that emits every control kind in every wire form (pass-through, distribution header with an OTP-style atom cache, fragmented), ticks and junk frames over a segmented, delayed simulated stream; reference = the sender's log",
-         "Seeded search over (item sequences: control kinds x payloads x wire forms, ticks, eleven kinds of junk frame, three receive APIs, idle gaps and abandoned idle calls, network behaviour). Oracle: the results of successive receive_message calls equal the sender's expectation list call by call: one Ok with equal control and payload per complete valid message, one Err per junk frame, nothing for ticks and non-final fragments; no panic. Fragmented messages are sent as the protocol prescribes and their non-delivery is the recorded known finding; any other discrepancy fails. Sampling, not proof.",
+         "Seeded search over (item sequences: control kinds x payloads x wire forms, ticks, twelve kinds of junk frame, three receive APIs, idle gaps and abandoned idle calls, network behaviour). Oracle: the results of successive receive_message calls equal the sender's expectation list call by call: one Ok with equal control and payload per complete valid message, one Err per junk frame, nothing for ticks and non-final fragments; no panic. Fragmented messages are sent as the protocol prescribes and their non-delivery is the recorded known finding; any other discrepancy fails. Sampling, not proof.",
          "Trusted: the sender model and independent encoder (written from the protocol documents); junk frames avoid the cache slots and sequence ids the model uses.",
          "DESIGN.md section 3, C06"),
  "C14": ("deterministic simulation of connection histories: a sender model with an Erlang-conformant atom cache (8 segments x 256 slots, header position independent of slot, create / re-use / overwrite across 1..30, 300..600 and (rarely) 52..60 heavy messages carrying more than 64 MiB of atom text, long atoms also as node and module names, both parities) drives a real connected Connection; the library's own header-mode frames are read by an independent header reader and echoed back",
